@@ -60,3 +60,15 @@ func VerifVisoInternals(v *VirtualISO) (fsBuf []byte, files []VerifVisoFile, pad
 	}
 	return fsBuf, files, int64(v.padAreaStart), int64(v.padAreaSize), int64(v.totalSize)
 }
+
+// VerifEncRegions exposes the encrypted sector ranges an EncryptedISO derived from the region map.
+func VerifEncRegions(e *EncryptedISO) [][2]int64 {
+	var out [][2]int64
+	for _, r := range e.encryptedRegions {
+		if r.start == 0 && r.end == 0 {
+			continue // leading placeholders left by make(n)+append
+		}
+		out = append(out, [2]int64{int64(r.start), int64(r.end)})
+	}
+	return out
+}
